@@ -234,6 +234,7 @@ pub fn run<T: Elem>(case: &Value, out: &mut Out) {
     for (k, op) in case["ops"].as_array().unwrap().iter().enumerate() {
         let name = gets(op, "op");
         if name == "fnorms" { exec_fnorms(case, op, cid, k, out); first = false; continue; }
+        if name == "sweep" { exec_sweep(op, cid, k, out); first = false; continue; }
         if name == "linspace" || name == "powspace" { exec_space(op, cid, k, out); first = false; continue; }
         let pre_re = jvec(&v, Part::Re); let pre_im = jvec(&v, Part::Im);
         let mut e = op.clone();
@@ -583,6 +584,50 @@ pub fn gen(tier: &str, seed: u64, out: &mut Out) {
             }
         }
     }
+    // (m) MAGNITUDE SWEEP: exactly representable vectors whose 2-norm is exactly representable, scaled by 2^k for EVERY k for which
+    //     the definition's own intermediates stay in range (derived from the definition: entries and sums for the linear operations,
+    //     -1070 <= k <= 1000; squares and their sum for norm_2 / complex moduli; products for dot and product_slice).  [1,2,2]
+    //     (entries a factor 2 apart) is run at every k, so that ANY threshold on the exponent axis separates its entries at some k.
+    {
+        let bases: Vec<Vec<i64>> = vec![vec![1, 2, 2], vec![2, 3, 6], vec![3, 4], vec![5, 12], vec![8, 15], vec![20, 21], vec![7, 24], vec![9, 40], vec![6, 6, 7], vec![4, 4, 7], vec![1, 4, 8],
+            vec![2, 6, 9], vec![12, 15, 16], vec![3, 3, 3, 3], vec![1, 1, 1, 1], vec![5, 5, 5, 5], vec![13], vec![1], vec![0, 5], vec![33, 544], vec![129, 8320], vec![201, 20200], vec![2, 2, 1, 4]];
+        let pyth: [(i64, i64); 8] = [(3, 4), (5, 12), (8, 15), (0, 7), (7, 0), (20, 21), (6, 8), (12, 5)];
+        for k in -1070..=1000i64 {
+            let quad = k.abs() <= 520;
+            let mut sel: Vec<usize> = if quick { if quad { vec![0, 1 + (k.rem_euclid(22)) as usize] } else { vec![(k.rem_euclid(23)) as usize] } } else { (0..bases.len()).collect() };
+            if !quick && !quad { sel.truncate(6); }
+            for bi in sel {
+                let mut b: Vec<i64> = bases[bi].iter().map(|a| if rng.gen_bool(0.5) { -*a } else { *a }).collect();
+                let rot = rng.gen_range(0..b.len()); b.rotate_left(rot);
+                let n = b.len(); let sumsq: i64 = b.iter().map(|a| a * a).sum();
+                let l2 = 64 - (sumsq.max(1) as u64).leading_zeros() as i64;                       // sumsq < 2^l2
+                let has2 = 2 * k + l2 <= 1022 && 2 * k >= -1022;
+                let c: Vec<i64> = (0..n).map(|_| rng.gen_range(1..=9) * if rng.gen_bool(0.5) { 1 } else { -1 }).collect();
+                let j = rng.gen_range((-1000 - k).max(-1060)..=(1000 - k).min(1000));
+                let sa = rng.gen_range(0..n); let sb = rng.gen_range(sa..n);
+                let pa = rng.gen_range(0..n); let pb = (pa + rng.gen_range(0..3)).min(n - 1);
+                let haspp = k.abs() * (pb - pa + 1) as i64 <= 1000;
+                let hascx = k >= -511 && k <= 500;
+                let m = n.min(3); let (mut zr, mut zi) = (vec![], vec![]);
+                for _ in 0..m { let (p, q) = pyth[rng.gen_range(0..8)]; zr.push(if rng.gen_bool(0.5) { p } else { -p }); zi.push(if rng.gen_bool(0.5) { q } else { -q }); }
+                let op = json!({"op": "sweep", "b": b, "c": c, "sk": k, "sj": j, "has2": has2 as i64, "hasd": 1, "hasdf": (!quick || k.rem_euclid(4) == 0) as i64, "haspp": haspp as i64, "hascx": hascx as i64, "sa": sa, "sb": sb, "pa": pa, "pb": pb, "zr": zr, "zi": zi});
+                push(out, json!({"ty": "f64", "init": [], "ops": [op]}));
+            }
+        }
+        // general (not exactly summable) data straddling every possible threshold: entries at 2^k, 2^(k-1), 2^(k-3), 2^(k-10) times small odd
+        // numbers, for every k in the range admissible for the 2-norm; norm_2 / norm_p against the scaled double-double reference, the
+        // order relations, homogeneity and the triangle inequality as for all general data (p limited so that the p-th powers stay in range)
+        for k in -495..=495i32 { for _ in 0..(if quick { 1 } else { 3 }) {
+            let odd = |rng: &mut StdRng| -> f64 { [1.0, 3.0, 5.0, 7.0][rng.gen_range(0..4)] * if rng.gen_bool(0.5) { 1.0 } else { -1.0 } };
+            let mut xs: Vec<f64> = [0, 1, 3, 10].iter().map(|d| odd(&mut rng) * pow2(k - d)).collect(); let rot = rng.gen_range(0..4); xs.rotate_left(rot);
+            let ys: Vec<f64> = [2, 0, 5, 1].iter().map(|d| odd(&mut rng) * pow2(k - d)).collect();
+            let k2 = rng.gen_range((-495 - k).max(-40)..=(495 - k).min(40));
+            let pmax = (1000.0 / ((k.abs().max((k + k2).abs()) + 15) as f64)).min(8.0);
+            let p = if pmax >= 2.0 && rng.gen_bool(0.3) { json!(rng.gen_range(1..=(pmax as i64))) } else { json!({"m": rng.gen_range(16..=((pmax * 16.0) as i64).max(16)), "e": -4}) };
+            let op = json!({"op": "fnorms", "kind": "sweep", "xs": xs.iter().map(|a| jf64_exact(*a)).collect::<Vec<Value>>(), "ys": ys.iter().map(|a| jf64_exact(*a)).collect::<Vec<Value>>(), "p": p, "k2": k2});
+            push(out, json!({"ty": "f64", "init": [], "ops": [op]}));
+        } }
+    }
 }
 
 /// the observers run on a vector that must be all zeros
@@ -654,4 +699,51 @@ fn special_case(rng: &mut StdRng, n: usize, kind: usize, ty: &str, push: &mut dy
     if f64ty || cx { ops.push(json!({"op": "norm_inf"})); }
     let mut c = json!({"ty": ty, "init": w, "ops": ops}); if cx { c["initi"] = json!(wi); }
     push(c);
+}
+
+// ------------------------------------------------------------------ magnitude sweep (exact data scaled by 2^k for every admissible k)
+/// 2^k exactly, for -1074 <= k <= 1023
+fn pow2(k: i32) -> f64 { if k >= -1022 { f64::from_bits(((k + 1023) as u64) << 52) } else { f64::from_bits(1u64 << (k + 1074)) } }
+/// the integer r / 2^k if r is exactly such an integer below 2^30, else BAD
+fn mant(r: f64, k: i32) -> i64 {
+    if r == 0.0 { return 0; }
+    if !r.is_finite() { return BAD; }
+    let b = r.abs().to_bits(); let ex = ((b >> 52) & 0x7ff) as i32; let fr = b & ((1u64 << 52) - 1);
+    let (mut m, mut e) = if ex == 0 { (fr, -1074) } else { (fr | (1u64 << 52), ex - 1075) };
+    while m & 1 == 0 { m >>= 1; e += 1; }
+    let sh = e - k;
+    if sh < 0 || sh > 30 || (m << sh) >= SAT as u64 { return BAD; }
+    (m << sh) as i64 * if r < 0.0 { -1 } else { 1 }
+}
+fn exec_sweep(op: &Value, cid: i64, kk: usize, out: &mut Out) {
+    let b = ivec(&op["b"]); let c = ivec(&op["c"]); let k = geti(op, "sk") as i32; let j = geti(op, "sj") as i32;
+    let (has2, hasd, haspp, hascx) = (geti(op, "has2") == 1, geti(op, "hasd") == 1, geti(op, "haspp") == 1, geti(op, "hascx") == 1);
+    let hasdf = geti(op, "hasdf") == 1;      // the threaded product spawns one thread per CPU: every 4th scale in the quick tier
+    let (sa, sb, pa, pb) = (getu(op, "sa"), getu(op, "sb"), getu(op, "pa"), getu(op, "pb"));
+    let zr = ivec(&op["zr"]); let zi = ivec(&op["zi"]); let ci: Vec<i64> = c.iter().rev().cloned().collect();
+    let r = guarded(|| {
+        let x = Vector::<f64>::create(b.iter().map(|a| *a as f64 * pow2(k)).collect());
+        let y = Vector::<f64>::create(c.iter().map(|a| *a as f64 * pow2(j)).collect());
+        let mut e = json!({"n1": mant(x.norm_1(), k), "ni": mant(x.norm_inf(), k), "s": mant(x.sum(), k), "ab": x.abs().vec.iter().map(|a| mant(*a, k)).collect::<Vec<i64>>(),
+                           "ss": mant(x.sum_slice(sa, sb), k)});
+        if has2 { e["r2"] = json!(mant(x.norm_2(), k)); }
+        if hasd { e["d"] = json!(mant(x.dot(&y), k + j)); }
+        if hasdf { e["df"] = json!(mant(x.dot_f64(&y), k + j)); }
+        if haspp { e["pp"] = json!(mant(x.product_slice(pa, pb), k * (pb - pa + 1) as i32)); }
+        if hascx {
+            let z = Vector::<Cmplx>::create(zr.iter().zip(&zi).map(|(p, q)| Cmplx::new(*p as f64 * pow2(k), *q as f64 * pow2(k))).collect());
+            let w = Vector::<Cmplx>::create(c.iter().zip(&ci).take(zr.len()).map(|(p, q)| Cmplx::new(*p as f64 * pow2(j), *q as f64 * pow2(j))).collect());
+            let za = z.abs(); let zn1 = z.norm_1(); let zs = z.sum();
+            e["cab"] = json!(za.vec.iter().map(|a| if a.imag != 0.0 { BAD } else { mant(a.real, k) }).collect::<Vec<i64>>());
+            e["cn1"] = json!(if zn1.imag != 0.0 { BAD } else { mant(zn1.real, k) }); e["cni"] = json!(mant(z.norm_inf(), k));
+            e["csr"] = json!(mant(zs.real, k)); e["csi"] = json!(mant(zs.imag, k));
+            if hasd { let zd = z.dot(&w); e["cdr"] = json!(mant(zd.real, k + j)); e["cdi"] = json!(mant(zd.imag, k + j)); }
+        }
+        e
+    });
+    let mut e = match r { Ok(v) => { let mut v = v; v["panic"] = json!(false); v } Err(_) => json!({"panic": true}) };
+    for f in ["b", "c", "sk", "sj", "has2", "hasd", "hasdf", "haspp", "hascx", "sa", "sb", "pa", "pb", "zr", "zi"] { e[f] = op[f].clone(); }
+    e["ci"] = json!(ci.iter().take(zr.len()).cloned().collect::<Vec<i64>>()); e["cw"] = json!(c.iter().take(zr.len()).cloned().collect::<Vec<i64>>());
+    e["op"] = json!("sweep"); e["ty"] = json!("f64"); e["cid"] = json!(cid); e["k"] = json!(kk); e["pre"] = json!([]); e["post"] = json!([]);
+    out.ev(e);
 }
